@@ -6,6 +6,20 @@ from .runner import Result
 BASE = ["cargo", "kani", "--no-default-features", "--features", "ibig"]
 
 
+def scan_assumptions(files=None):
+    """Mechanical scan of the harness / contract files for trusted constructs (listed in the evidence on every run)."""
+    import glob
+    out = []
+    for f in sorted(glob.glob(os.path.join(VERIF, "kani", "*.rs"))):
+        if files and os.path.basename(f) not in files: continue
+        t = open(f).read()
+        cnt = {k: len(re.findall(pat, t)) for k, pat in (("kani::assume", r"kani::assume\("), ("kani::stub", r"#\[kani::stub\("), ("stub_verified", r"stub_verified\("),
+                                                          ("kani::unwind", r"#\[kani::unwind\("), ("any_where", r"any_where\("))}
+        cnt = {k: v for k, v in cnt.items() if v}
+        if cnt: out.append("kani/%s: %s" % (os.path.basename(f), ", ".join("%s x%d" % kv for kv in cnt.items())))
+    return ["mechanical scan of the Kani harness files: " + "; ".join(out)] if out else []
+
+
 def _target_dir():
     tag = "" if REPO == "/repo" else "-" + hashlib.sha256(REPO.encode()).hexdigest()[:8]
     return os.path.join(BUILD, "kani-target" + tag)
